@@ -168,6 +168,7 @@ def _minmax(e, st, args, kw, node, is_min):
     m = z3.simplify(M - l.off)
     e.last_argm = m
     e.last_argM = M
+    st.notes['last_argM'] = M
     if default is None:
         st.assume(*facts)
         return st, base.at(M)
@@ -418,6 +419,7 @@ def bi_itertools_takewhile(e, st, args, kw, node):
     e.assumptions.add('itertools.takewhile(p, xs): the prefix of xs before the first element falsifying p')
     c, p = _first_failing(e, st, pred, l, 'tw')
     e.last_takewhile = dict(c=c, pred=p, src=l)
+    st.notes['last_takewhile'] = e.last_takewhile
     return st, st.new_list(VList(l.elem, l.arrs, l.off, c))
 
 
@@ -430,6 +432,7 @@ def bi_itertools_dropwhile(e, st, args, kw, node):
     e.assumptions.add('itertools.dropwhile(p, xs): the suffix of xs from the first element falsifying p')
     c, p = _first_failing(e, st, pred, l, 'dw')
     e.last_dropwhile = dict(c=c, pred=p, src=l)
+    st.notes['last_dropwhile'] = e.last_dropwhile
     return st, st.new_list(VList(l.elem, l.arrs, z3.simplify(l.off + c), z3.simplify(l.n - c)))
 
 
@@ -505,6 +508,8 @@ def bi_sorted(e, st, args, kw, node):
     st.assume(*e.wf(S, st))
     e.last_sorted = dict(S=S, X=X, pi=pi, pinv=pinv)
     e.sorted_log.append(e.last_sorted)
+    st.notes['last_sorted'] = e.last_sorted
+    st.notes['sorted_log'] = st.notes.get('sorted_log', ()) + (e.last_sorted,)
     return st, st.new_list(S)
 
 
@@ -550,6 +555,8 @@ def bi_itertools_groupby(e, st, args, kw, node):
     vg.grp = grp
     e.last_groupby = vg
     e.groupby_log.append(vg)
+    st.notes['last_groupby'] = vg
+    st.notes['groupby_log'] = st.notes.get('groupby_log', ()) + (vg,)
     return st, vg
 
 
